@@ -250,8 +250,11 @@ def run_case(case):
                                  capture_output=True, text=True).stdout
             f['dynamic'] = 'NEEDED' in dyn
         if pch and f['pch']:
-            rc, out = run(['make', 'libpchlib.so', 'libpchslib.a'], cwd=bld,
-                          env=benv)
+            # (a fully static link cannot produce the shared library)
+            libs_ = ['libpchslib.a'] + (
+                [] if any(x['o'] == 'static' for x in slots)
+                else ['libpchlib.so'])
+            rc, out = run(['make'] + libs_, cwd=bld, env=benv)
             if rc != 0:
                 f['pch'] = False
                 f['note'] = (f['note'] + ' library with pch: ' + out[-300:])
